@@ -1,5 +1,5 @@
 """C02 -- see DESIGN.md section 4"""
-from vf import family
+from vf import family, harness, yal
 from vf.family import T
 from vf.props import flow_common as fc
 from vf.props import sk_common as sk
@@ -87,17 +87,46 @@ EXTRA = {
 }
 
 
+# concrete anchors: literal words (unique in the source) that are copied; each copied character has
+# to map to its own offset.  (Not solver-decided: constructs the document algebra has no node for.)
+LIT = [
+    ("A \\'\\verb|abc| B \\`{\\verb+eyz+} C", ['bc', 'yz', 'A', 'B', 'C']),
+    ("Uno \\^\\verb|o| Due \\\"\\verb|uvw|tre", ['vw', 'tre', 'Uno', 'Due']),
+]
+
+
+def lit_check(i, twin=False):
+    doc, words = LIT[i]
+    (plain, cm), diags, err = yal.run_native(doc, yal.mkopts({}))
+    for w in words + (['zzz'] if twin else []):
+        k = plain.find(w)
+        if k < 0:
+            return 'C02 copied text %r of %r is missing in %r' % (w, doc, plain)
+        for j in range(len(w)):
+            if cm[k + j] != doc.find(w) + j + 1:
+                return ('C02 %r: copied character %r of %r stands at offset %d, is mapped to %d'
+                        % (doc, w[j], w, doc.find(w) + j + 1, cm[k + j]))
+    return None
+
+
 def items(tier, seed):
     tw = {'h': 'fam', 'name': 'twin', 'spec': family.doc(family.ATOMS[0]), 'tag': 'C02',
           'twin': True}
     ex = [{'h': 'fam', 'name': 'extra:' + n, 'spec': sp, 'tag': 'C02', 'opts': o}
           for n, (sp, o) in EXTRA.items()]
-    return fc.items(tier, seed, 'C02', [tw] + ex) + sketches(tier)
+    lit = [{'h': 'lit', 'i': i} for i in range(len(LIT))] + [{'h': 'lit', 'i': 0, 'twin': True}]
+    return fc.items(tier, seed, 'C02', [tw] + ex) + sketches(tier) + lit
 
 
 def run_item(item):
+    if item['h'] == 'lit':
+        r = lit_check(item['i'], bool(item.get('twin')))
+        return harness.smt_result(1, 0 if r else 1, [{'witness': {}, 'msg': r}] if r else [], 0,
+                                  0.0, [LIT[item['i']][0]], item)
     return (sk if item['h'] == 'sk' else fc).run_item(item)
 
 
 def replay(rep):
+    if rep['item']['h'] == 'lit':
+        return lit_check(rep['item']['i'])
     return (sk if rep['item']['h'] == 'sk' else fc).replay(rep)
